@@ -6,7 +6,7 @@ VERUS_TECH = 'contract-based deductive verification (Verus/Z3) of functions extr
 
 PROPERTIES = {
     'C01': dict(
-        level='proof', verus=['rlabels', 'rbranch', 'rscan', 'rpool', 'rdecode', 'rframes', 'rattrs', 'rtables', 'raccept', 'rtree', 'rarms', 'rtypes', 'rpoolres', 'rannot'], kani=['flags'], enum=['cls'],
+        level='proof', verus=['rlabels', 'rbranch', 'rscan', 'rpool', 'rdecode', 'rframes', 'rattrs', 'rtables', 'raccept', 'rtree', 'rarms', 'rtypes', 'rpoolres', 'rannot', 'abuild'], kani=['flags'], enum=['cls'],
         technique=VERUS_TECH,
         claim='Unbounded proof, for the functions under contract only: the reader offset->Label table (bounds checks, exact lookup, frame, injectivity invariant), '
               'branch-target arithmetic and switch padding, the primitive big-endian readers, the header check (magic, every major version up to 67 whatever the minor), the constant-pool layout (JVMS 4.4, two slots for long/double), '
@@ -67,12 +67,15 @@ PROPERTIES = {
         note='Trusted: Verus+Z3; extraction rewrites (trait impls emitted as inherent impls, component calls resolved to a blanket stub with the contract == sp_remap); the reference-carrying type table written from the property statement; opaque name types.',
         out=['dukebox/src/remap.rs remap / remap_jar_entry_name (jar level, zip I/O)', 'blanket impls for Option<T> / Vec<T> / &T (closures, iterator adapters)', 'impl Mappable for InnerClass (closure + transpose)']),
     'C15': dict(
-        level='proof', verus=['bridge'], kani=[],
+        level='proof', verus=['bridge'], kani=[], enum=['bridge'],
         technique=VERUS_TECH,
+        explanation='Bounded part (never counted as proved): the whole pass add_specialized_methods_to_mappings on 70 782 generated jar / mapping-set cases (kx/enum/bridge_group.py lists the universes).',
         claim='Unbounded proof, for the one function under contract: is_potential_bridge answers exactly "inheritable (not private, static or final), same arity, position-wise bridge-compatible parameter and return types" '
-              'for all descriptors and flag combinations. Partial: everything else of the pass (call-target index built by the visitor, are_types_bridge_compatible over the inheritance graph, hierarchy tie-break, mapping insertion) is not under contract.',
-        note='Trusted: Verus+Z3; nested fn cut out of get_specialized_methods; MethodDescriptor::parse and are_types_bridge_compatible are opaque functions of their arguments; opaque tree types.',
-        out=['src/specialized_methods/mod.rs visitor index, are_types_bridge_compatible, get_higher_method, the filter chain and mapping insertion']),
+              'for all descriptors and flag combinations. Everything else of the pass (call-target index built by the visitor, are_types_bridge_compatible over the inheritance graph, name lookup through inheritance, mapping insertion) '
+              'is covered by the bounded enumeration of the whole pass only.',
+        note='Trusted: Verus+Z3; nested fn cut out of get_specialized_methods; MethodDescriptor::parse and are_types_bridge_compatible are opaque functions of their arguments; opaque tree types. '
+             'Bounded stand-in for the whole pass: native enumeration against a model-level oracle written from the property statement (kx/enum/bridge.rs, own class file generator), see kx/enum/bridge_REPORT.md.',
+        out=['get_higher_method tie-break (does not influence the produced mappings)', 'array types, invokedynamic, parameter / return classes outside the main jar, more than two parameters (outside the enumerated universes)']),
     'C09': dict(
         level='proof', verus=[], kani=['merge'], enum=['maps'],
         technique=KANI_COMPLETE,
@@ -135,14 +138,14 @@ PROPERTIES = {
              'Bounded stand-in for the name predicates and as a second opinion on the parsers: native enumeration against an independent oracle (kx/enum).',
         out=['duke/src/tree/mod.rs names::is_valid_* (assumed / bounded only)', 'duke/src/tree/class.rs, field.rs, method.rs check_valid wrappers', 'unicode names beyond the bounded alphabet', 'signatures (check_valid accepts everything)']),
     'C16': dict(
-        level='proof', verus=['rlabels', 'cwrite', 'wjump', 'wpool', 'wencode', 'wattrs', 'wtypes', 'rskip', 'rbranch', 'rscan', 'rpool', 'rdecode', 'rframes', 'rattrs', 'rtables', 'raccept', 'rtree', 'rarms', 'rtypes', 'rpoolres', 'rannot', 'aaccept', 'adiff', 'scope', 'c20len', 'desc', 'inner'], kani=[], enum=['desc', 'mapdesc', 'cls'],
+        level='proof', verus=['rlabels', 'cwrite', 'wjump', 'wpool', 'wencode', 'wattrs', 'wtypes', 'rskip', 'rbranch', 'rscan', 'rpool', 'rdecode', 'rframes', 'rattrs', 'rtables', 'raccept', 'rtree', 'rarms', 'rtypes', 'rpoolres', 'rannot', 'aaccept', 'abuild', 'adiff', 'scope', 'c20len', 'desc', 'inner'], kani=[], enum=['desc', 'mapdesc', 'cls'],
         technique=VERUS_TECH + ': implicit safety obligations (overflow, index, unwrap, unreachable, termination)',
         claim='Unbounded proof of panic-freedom and termination for every function extracted for the other properties (Verus generates no-overflow, in-bounds, no-failing-unwrap, unreachable!() unreachable, decreases obligations for each). '
               'This includes the descriptor parsers (read_field_type, the three parse functions, get_arguments_size) on arbitrary text. Partial: the line-oriented text parsers built on BufRead are outside the verifier and not covered.',
         note='Trusted: as for the units involved (see evidence.trusted_base). Machine integers are machine integers; usize is 64 bit.',
         out=['quill/src/lines.rs, tiny_v2.rs, tiny_v2_diff.rs, enigma_file.rs, dukenest/src/io.rs (text parsers)', 'read_code closures']),
     'C17': dict(
-        level='proof', verus=['rskip', 'rattrs', 'raccept', 'rtree', 'aaccept'], kani=[], enum=['cls'],
+        level='proof', verus=['rskip', 'rattrs', 'raccept', 'rtree', 'aaccept', 'abuild'], kani=[], enum=['cls'],
         technique=VERUS_TECH,
         claim='Unbounded proof, for the functions under contract only: skip_attributes consumes exactly the attribute table; with_pos restores the stream position; the primitive readers consume exactly their width; '
               'every decline path of read_field / read_method / read_record_component / the class attribute loop (interest flag off, ControlFlow::Break, visit_code() == None) consumes exactly the declined structure, '
